@@ -6,7 +6,7 @@ func init() {
 		"C02": {"status/proto library round trips (assumed contracts)", "content equality of metadata maps through toProto/fromProto (only source/target plumbing and non-nil-ness are proved; the pointwise map equality of DESIGN 6/C02 is not mechanised)", "non-UTF-8 metadata values (wire-format limitation, not claimed)", "timing of delivery"},
 		"C03": {"'never indefinitely delays' as liveness", "bounded hold time of writeMu when a handler blocks in Send (argued, not proved)", "unmarshalable frames on the carrier"},
 		"C04": {"that blocked operations do return (they become enabled; fairness not modelled)", "that the carrier reports its own failure", "handler cooperation after its context is cancelled"},
-		"C05": {"deadlock freedom of a whole tunnel under bounded transport buffering (needs a carrier model and fairness)", "the Owicki-Gries interleaving invariant I2 of DESIGN 3.4 is NOT mechanised in this version: the sender's reservation and the receiver's credit conservation are proved per function, the absence of a lost wake-up between send and updateWindow is argued in DESIGN.md only"},
+		"C05": {"deadlock freedom of a whole tunnel under bounded transport buffering (needs a carrier model and fairness)", "the interleaving invariant I2 is proved over an action schema whose shared accesses, successor relation and guards are checked against the SSA / proved by the executor; the effect of each access kind on (window, tokens) is the schema (trusted encoding of sync/atomic and channel semantics)", "the liveness reading (a waiting sender does resume) needs fairness"},
 		"C06": {"process heap growth", "a partially reassembled message the application is actively reading"},
 		"C07": {"'once the tunnel has delivered the notice' (carrier)", "'without waiting' beyond the nosend/nowait effects"},
 		"C08": {"wire order between different goroutines' frames other than new_stream (which is sent under the creation lock)", "that the server's user handler terminates"},
